@@ -35,6 +35,11 @@ def bool_param_upvar(F, co):
     return idx[0]
 
 
+def _has_bool_param(F, co):
+    fn = F.parent_body(co)
+    return len([1 for ty in fn.locals[1:fn.arg_count + 1] if ty == "bool"]) == 1
+
+
 def guard_source(F, body, g):
     """Classify a bool guard: ('upvar', idx) | ('tuple', idx) | ('other', desc)"""
     l = g.discr_local
@@ -158,7 +163,11 @@ def merged_flag(F):
     (run, same, inputs, disj, why): both routines get the same term on every row; the value depends on the CLI flag and on the builder
     flag; for every assignment of the two consistent with what a row learned the value is `cli || builder`."""
     run, paths, H = roles.run_merge_table(F)
-    ie, ii = bool_param_upvar(F, roles.execute(F)), bool_param_upvar(F, roles.insert_features(F))
+    ie = bool_param_upvar(F, roles.execute(F))
+    try:
+        ii = bool_param_upvar(F, roles.insert_features(F))
+    except Unverifiable:
+        ii = None        # the ingestion routine takes no flag of its own (it then can only read the CLI's): reported by the callers
     cli_t, b_t = H["cli"]("fail_fast"), H["builder"]("fail_fast")
 
     def val(t, env):
@@ -180,7 +189,8 @@ def merged_flag(F):
         e1, e2 = H["execute"](p), H["ingest"](p)
         if e1 is None or e2 is None:
             raise Unverifiable("Runner::run: a path does not start ingestion and execution exactly once")
-        v1, v2 = e1[2][ie], e2[2][ii]
+        v1 = e1[2][ie]
+        v2 = e2[2][ii] if ii is not None else None
         same = same and v1 == v2
         learned = {}
         for a, o in p.conds:
@@ -210,7 +220,8 @@ def merged_flag(F):
 
 def r2(F, R):
     run, same, mention, disj, why = merged_flag(F)
-    R.check(same, "same-flag-to-both", run, "ingestion and execution get the same fail_fast", "ingestion and execution receive different fail_fast values")
+    R.check(same, "same-flag-to-both", run, "ingestion and execution get the same fail_fast", "ingestion and execution receive different fail_fast values (the ingestion routine is not "
+            "handed the merged flag: with fail-fast set one way only, one of the two does not stop)")
     R.check(mention == {"cli", "builder"}, "cli-or-builder/inputs", run, "reads cli.fail_fast and the builder flag", f"fail_fast depends on {sorted(mention)} only")
     R.check(disj, "cli-or-builder/disjunction", run, "cli.fail_fast || builder", f"fail_fast is not the disjunction of the CLI flag and the builder flag: {why}")
     R.floor(3)
@@ -365,7 +376,7 @@ def r5(F, R):
         ds = A.deep_slice(F, ing, start_locals=[l])
         fields = {(o, n) for o, n in ds.fields if n == "fail_fast"}
         for k, p in ds.root_params:
-            if k == ing_fn.key and p - 1 == bool_param_upvar(F, ing):
+            if k == ing_fn.key and _has_bool_param(F, ing) and p - 1 == bool_param_upvar(F, ing):
                 # the condition is the routine's bool parameter: what Runner::run hands in there is decided by R2's table
                 _, same_, mention_, disj_, _ = merged_flag(F)
                 if disj_:
